@@ -20,7 +20,10 @@ def _files_of(tpl):
 _unit_files = {u: _files_of(c['template']) for u, c in _units.items()}
 def affected(diff_path):
     touched = set(re.findall(r'(?m)^\+\+\+ b/(\S+)', open(diff_path).read()))
-    return {p for u, fs in _unit_files.items() if fs & touched for p in _units[u]['properties']}
+    props = {p for u, fs in _unit_files.items() if fs & touched for p in _units[u]['properties']}
+    # the registered bounded stand-ins run the whole derive / the whole export path: any source change can reach them
+    props |= {p for c in _units.values() for b in c.get('bounded_standins', []) for p in b['properties']}
+    return props
 for name in names:
     d = f'{VERIF}/seeded/{name}'
     rc, out = sh(f'git -C {REPO} apply {d}/patch.diff')
